@@ -3,7 +3,7 @@
     Model: [Account.Model] (threads = doIssue / newACMEClientWithAccount calls of any number of
     instances; CA index [c]; counters fsaves / crashes / deletes / resets are ghost). *)
 From CM Require Import Lib.Str Lib.Wire Gen.Consts Account.Model Account.KeyPem Account.Check Account.Proofs
-  Account.Recreate Account.Url Account.Examples Account.Monitor Account.KeyPemProofs.
+  Account.Recreate Account.Url Account.Examples Account.Monitor Account.KeyPemProofs Account.Tie.
 From Coq Require Import Arith.
 Open Scope nat_scope.
 
@@ -204,6 +204,16 @@ Example C20_ex_keypem_recovery : exists s,
   k_thr s 1 = KIdle /\ k_reg s = FNone /\ k_key s = FMine /\ k_known s = true.
 Proof.
   eexists. split; [exists kp_run_rollback; vm_compute; reflexivity|]. repeat split.
+Qed.
+
+(** the statement order and loop facts the models hard-code are those of the source (translator
+    item c20order, regenerated on every run) *)
+Example C20_ex_tie :
+  c20_recreate_on_attempt = 0 /\ c20_save_order = [0; 1] /\ c20_storetx_rollback = true /\
+  c20_delete_order = [0; 1] /\ c20_load_order = [0; 1] /\ c20_client_order = [1; 2; 1; 3; 4].
+Proof.
+  destruct tie_recreate_loop as [H1 _]. destruct tie_save_order as [H2 H3].
+  destruct tie_delete_load_order as [H4 H5]. pose proof tie_client_order as H6. auto 10.
 Qed.
 
 (** non-vacuity: the hypotheses above are met by non-trivial reachable states *)
